@@ -68,9 +68,17 @@ Definition check_rule (S : schema) (W : wdoc) (acyc : bool) (r : N) (impl : list
       if negb (run_complete S (erase W) false fuel) then 1 else
       if negb (Bool.eqb (nonempty (run_overlap S (erase W) false fuel)) (spec_violates r S W)) then 1 else
       if negb (Bool.eqb (nonempty (run_rule r S W)) (spec_violates r S W)) then 1 else
-      if negb (Bool.eqb (nonempty impl) (spec_violates r S W)) then 2
-      else if negb (subset impl (L1_offending S (erase W) fuel)) then 2
-      else if same_set impl (run_rule r S W) then 0 else 1
+      if negb (Bool.eqb (nonempty impl) (spec_violates r S W)) then 2 else
+      (* located: every node the implementation reports is an offending node of the Spec -- a
+         member of an incompatible pair (oracle offending_o, C02_offending_oracle; the model's
+         own reports lie in it, C02_overlap_reports_offending) *)
+      match offending_o S (erase W) fuel with
+      | None => 1
+      | Some ids =>
+        if negb (subset impl ids) then 2
+        else if negb (subset (run_rule r S W) ids) then 1
+        else if same_set impl (run_rule r S W) then 0 else 1
+      end
     else
       (* cyclic documents and documents with duplicate argument names are outside the overlap
          rule's specification (NoFragmentCycles / UniqueArgumentNames reject them); the
